@@ -82,6 +82,7 @@ func (nu *nodeURL) rawQueryUpdateNeeded() bool {
 }
 
 func (nu *nodeURL) String() string {
+	nu.syncSearchParams()
 	return nu.url.String()
 }
 
